@@ -10,6 +10,10 @@
    C. an event record = header, common context, specific context, payload in that order; the
       packet reader's dec_record dispatches on the header id and returns the four scopes
                                                                          (C01_record_roundtrip)
+   D. whole histories (Tracer/History*.v): after every history of calls, oracle answers and buffer
+      swaps, the reader finds in the packets handed over exactly the canonical values of the
+      accepted tracing calls, in call order, and in every packet context the canonical values of
+      the user members given to the opening function                           (C01_history)
    The integer leaf write used by `enc`/`ser` (write_bits of enc_int) is the stream view of what
    C08 proves about the bit-field macro; the tie of both to the generated C is the byte-level
    correspondence run (harness/props/c01.py).
@@ -22,7 +26,7 @@ From Coq Require Import List Arith Bool ZArith String Lia.
 Import ListNotations.
 From BT.Base Require Import Bits BitsProofs.
 From BT.Layout Require Import Model BuildProofs RoundTrip RecordProofs.
-From BT.Tracer Require Import Model Decode RecordDecode.
+From BT.Tracer Require Import Model Decode RecordDecode History HistoryRecord HistoryStep HistoryMain.
 
 Theorem C01_ops_equal_layout :
   forall bo nk lim (s : sft), wf_sft s = true ->
@@ -88,3 +92,19 @@ Example C01_example_runs :
         | None => false end
     | None => false end) (seq 0 41) = true.
 Proof. vm_compute. reflexivity. Qed.
+
+(* D: whole histories.  ds: per call, the records it added (call_out: the canonical values of that
+   call's arguments, rec_spec); K: per packet handed over, its specification (spec_packet: canonical
+   header constants and packet context values, its records); cur: the records of the open packet *)
+Theorem C01_history :
+  forall d user cs_size, wf_d d user cs_size ->
+  forall buf oracle h,
+    fits cs_size (8 * buf) -> or_ok cs_size oracle -> Forall (call_ok d) h ->
+    let w0 := mk_w (init_ctx buf) oracle 0%Z [] false user in
+    let w1 := step d w0 COpen in
+    c_open (w_c w1) = true -> inb_run d w1 h ->
+    let w := run d buf user oracle (COpen :: h) in
+    w_err w = false ->
+    exists ds K cur, outs d w1 h ds /\ HI d user cs_size w K cur /\ flat K ++ cur = List.concat ds.
+Proof. exact history_main. Qed.
+Print Assumptions C01_history.
